@@ -39,10 +39,11 @@ type RF struct {
 }
 
 type Sym struct {
-	atoms []*Atom
-	byKey map[string]AtomID   // var atoms
-	fnTab map[string][]AtomID // fn name -> candidates
-	Tol   float64
+	structFields map[string][]string // struct type name -> field names (eta rule)
+	atoms        []*Atom
+	byKey        map[string]AtomID   // var atoms
+	fnTab        map[string][]AtomID // fn name -> candidates
+	Tol          float64
 }
 
 func NewSym() *Sym {
